@@ -204,6 +204,9 @@ def program_st(draw, max_features=3, faults=True, cfg=None, peek=True, **kw):
     if peek and draw(st.integers(0, 3)) == 0:
         prog["peek"] = True         # hooks read element statuses (harness.Plan.peek)
     if faults:
+        if draw(st.integers(0, 5)) == 0:
+            # hooks decorated with behave.log_capture.capture (documented for environment functions)
+            prog["capture_hooks"] = draw(st.sampled_from(["plain", "error"]))
         f = draw(st.integers(0, 6))
         if f == 6:
             # run-time exclusion: a before_feature / before_rule / before_scenario hook calls <element>.skip()
